@@ -458,3 +458,15 @@ def run(ctx):
             # is_signer_authorized(.., false) also refuses a stranger but not the authority; the explicit flag test is required
             ctx.inst("C10.R5", "refuses-receivership/%s/%s" % (ixn, ac), byc or byh, "%s refuses an account that is in receivership" % ixn, "constraint=%s handler=%s" % (byc, byh), "%s:%d" % (ix["struct"].file, ix["struct"].line))
     ctx.floor("C10.R5", 14)
+
+
+_run_pre_leaves = run
+
+
+def run(ctx):
+    from .kernels import check_leaves
+    try:
+        _run_pre_leaves(ctx)
+    finally:
+        # leaf helpers this property's rules treat by name, pinned as complete path tables
+        check_leaves(ctx, "C10.K", ['account.get_flag', 'account.set_flag', 'account.unset_flag'])
